@@ -91,6 +91,9 @@ pub enum Method {
     Copy,
     /// `read_n` into the codec's arena, then `encode_anchored` / `decode_anchored`.
     Anchored,
+    /// `read_n` into a separate arena of the caller's, which is dropped before (odd pieces) or
+    /// right after (even pieces) the `*_anchored` call: the slice's own anchor is all that keeps it alive.
+    AnchoredForeign,
     /// `encode_read` / `decode_read` with a scripted reader; what the call
     /// does not consume is left for the following pieces.
     Read { script: Vec<ReadStep>, attempts: u8 },
@@ -195,6 +198,7 @@ pub fn method() -> impl Strategy<Value = Method> {
         3 => Just(Method::Borrow),
         3 => Just(Method::Copy),
         2 => Just(Method::Anchored),
+        1 => Just(Method::AnchoredForeign),
         2 => (proptest::collection::vec(read_step(), 0..6), 1u8..6).prop_map(|(script, attempts)| Method::Read { script, attempts }),
     ]
 }
@@ -449,6 +453,7 @@ fn method_name(m: &Method) -> &'static str {
         Method::Borrow => "borrow",
         Method::Copy => "copy",
         Method::Anchored => "anchored",
+        Method::AnchoredForeign => "anchored",
         Method::Read { .. } => "read",
     }
 }
@@ -548,6 +553,21 @@ pub fn run_encoder(plain: &[u8], pre: &[u8], side: &Side, check_stream: bool) ->
                         return Err(Fail::new("encode:read_n-content", "read_n from a slice did not return the slice's bytes"));
                     }
                     encoder.encode_anchored(anchored);
+                    pos = piece_end;
+                }
+                Method::AnchoredForeign => {
+                    let mut foreign = owning_iovec::ByteArena::new();
+                    let mut src = chunk;
+                    let anchored = foreign
+                        .read_n(&mut src, chunk.len(), NonZeroUsize::new(3).unwrap())
+                        .map_err(|e| Fail::new("encode:read_n-error", format!("read_n from a slice failed: {e}")))?;
+                    if i % 2 == 1 {
+                        drop(foreign);
+                        encoder.encode_anchored(anchored);
+                    } else {
+                        encoder.encode_anchored(anchored);
+                        drop(foreign);
+                    }
                     pos = piece_end;
                 }
                 Method::Read { script, attempts } => {
@@ -732,6 +752,18 @@ pub fn run_decoder_pre(stream: &[u8], pre: &[u8], side: &Side, check_stream: boo
                         return Err(Fail::new("decode:read_n-content", "read_n from a slice did not return the slice's bytes"));
                     }
                     pos = piece_end;
+                    decoder.decode_anchored(anchored).map_err(|e| e.to_string())
+                }
+                Method::AnchoredForeign => {
+                    let mut foreign = owning_iovec::ByteArena::new();
+                    let mut src = chunk;
+                    let anchored = foreign
+                        .read_n(&mut src, chunk.len(), NonZeroUsize::new(3).unwrap())
+                        .map_err(|e| Fail::new("decode:read_n-error", format!("read_n from a slice failed: {e}")))?;
+                    pos = piece_end;
+                    if i % 2 == 1 {
+                        drop(foreign);
+                    }
                     decoder.decode_anchored(anchored).map_err(|e| e.to_string())
                 }
                 Method::Read { script, attempts } => {
